@@ -60,6 +60,10 @@ def make_input(ctx, arg, name, D, P):
         A[idx] = ctx.cvar(nm) if arg.cplx else ctx.var(nm)
         if not arg.cplx and (arg.kind != 'utpm' or idx[0] == 0):
             _dom(ctx, A[idx], arg.dom)
+    if arg.dom == 'zero' and arg.kind == 'utpm':
+        # base point exactly on the kink
+        for idx in np.ndindex(*A[0].shape):
+            A[0][idx] = S.const(0) if ctx.mode == 'sym' else 0.0
     if arg.dom == 'sym' and arg.kind == 'utpm':
         # symmetric matrices
         n = arg.shape[0]
@@ -165,6 +169,15 @@ def catalogue():
     add('dot(mat,ndarray)', [U((2, 2)), N((2, 2))], lambda algopy, x, y: algopy.dot(x, y), group='linalg', npfn=np.dot)
     add('dot(ndarray,mat)', [N((2, 2)), U((2, 2))], lambda algopy, x, y: algopy.dot(x, y), group='linalg', npfn=np.dot)
     add('outer', [U((2,)), U((2,))], lambda algopy, x, y: algopy.outer(x, y), group='linalg', npfn=np.outer)
+    add('dot(mat,complex ndarray)', [U((2, 2)), N((2, 2), cplx=True)], lambda algopy, x, y: algopy.dot(x, y), group='linalg', npfn=np.dot)
+    add('dot(complex ndarray,mat)', [N((2, 2), cplx=True), U((2, 2))], lambda algopy, x, y: algopy.dot(x, y), group='linalg', npfn=np.dot)
+    add('dot(complex mat,mat)', [U((2, 2), cplx=True), U((2, 2))], lambda algopy, x, y: algopy.dot(x, y), group='linalg', npfn=np.dot)
+    add('utpm * complex ndarray', [U((2,)), N((2,), cplx=True)], lambda algopy, x, y: x * y, group='arith', npfn=operator.mul)
+    add('complex utpm + utpm', [U((2,), cplx=True), U((2,))], lambda algopy, x, y: x + y, group='arith', npfn=operator.add)
+    add('max', [U((3,))], lambda algopy, x: algopy.UTPM.max(x), group='kink', tags=['distinct'])
+    add('abs() at 0', [U((2,), dom='zero')], lambda algopy, x: abs(x), group='kink')
+    add('absolute at 0', [U((2,), dom='zero')], lambda algopy, x: algopy.absolute(x), group='kink')
+    add('sign at 0', [U((2,), dom='zero')], lambda algopy, x: algopy.sign(x), group='kink')
     add('inv', [U((2, 2))], lambda algopy, x: algopy.inv(x), group='linalg', npfn=np.linalg.inv)
     add('solve', [U((2, 2)), U((2, 1))], lambda algopy, a, b: algopy.solve(a, b), group='linalg', npfn=np.linalg.solve)
     add('solve(ndarray,utpm)', [N((2, 2)), U((2, 1))], lambda algopy, a, b: algopy.solve(a, b), group='linalg', npfn=np.linalg.solve)
